@@ -193,6 +193,97 @@ pub async fn run_case(backend: &str, seed: u64, rep: &mut Report, ops: &mut Vec<
     Ok(())
 }
 
+/// C16 for external file blobs: real `file_integrity` over the files named by the file event
+/// log; clean, then ONE blob changed (bit flip / truncation / extension / emptied / removed):
+/// exactly that file must be reported.
+pub async fn file_case(backend: &str, seed: u64, rep: &mut Report, thorough: bool) -> anyhow::Result<()> {
+    use sos_client_storage::AccessOptions;
+    use sos_integrity::{file_integrity, FileIntegrityEvent, IntegrityFailure};
+    use sos_reducers::FileReducer;
+    use sos_sync::StorageEventLogs;
+    use sos_vault::secret::{Secret, SecretMeta};
+    let mut rng = Rng::new(seed ^ 0x16F);
+    let w = World::new(1, backend).await?;
+    let srcdir = std::path::Path::new("/verif/run/tmp").join(format!("c16src-{seed}-{backend}"));
+    std::fs::create_dir_all(&srcdir)?;
+    let (target, files) = {
+        let mut a = w.devices[0].lock().await;
+        let default = *a.default_folder().await.unwrap().id();
+        let n_files = rng.range(2, 4);
+        for i in 0..n_files {
+            let body: Vec<u8> = (0..rng.range(1, 70_000)).map(|_| rng.below(256) as u8).collect();
+            let path = srcdir.join(format!("f{i}.bin")); std::fs::write(&path, &body)?;
+            let secret: Secret = path.clone().try_into()?;
+            a.create_secret(SecretMeta::new(format!("file{i}"), secret.kind()), secret, AccessOptions { folder: Some(default), ..Default::default() }).await?;
+        }
+        let files = { let log = a.file_log().await?; let l = log.read().await; FileReducer::new(&*l).reduce(None).await? };
+        (a.backend_target().await, files)
+    };
+    let _ = std::fs::remove_dir_all(&srcdir);
+    let paths = target.paths();
+    let run = |files: indexmap::IndexSet<sos_core::ExternalFile>| { let target = target.clone(); async move {
+        let (mut rx, _cancel) = file_integrity(&target, files, 2).await.map_err(|e| e.to_string())?;
+        let mut out: Vec<(String, String)> = vec![];
+        let res = tokio::time::timeout(std::time::Duration::from_secs(30), async {
+            while let Some(ev) = rx.recv().await {
+                match ev {
+                    FileIntegrityEvent::Failure(f, why) => out.push((f.to_string(), match why { IntegrityFailure::MissingFile(_) => "missing".into(), IntegrityFailure::CorruptedFile { .. } => "corrupted".into(), other => format!("other:{other:?}") })),
+                    FileIntegrityEvent::Complete => break,
+                    _ => {}
+                }
+            }
+        }).await;
+        if res.is_err() { return Err("file report did not complete within 30 s".to_string()); }
+        Ok::<_, String>(out)
+    } };
+    let ctx = |extra: serde_json::Value| json!({"case_seed": seed, "backend": backend, "detail": extra});
+    // clean
+    let first: Result<Vec<(String, String)>, String> = run(files.clone()).await;
+    match first {
+        Ok(f) if f.is_empty() => {}
+        Ok(f) => rep.spec_fail(&format!("c16-intact-files-report-failure-{backend}"), ctx(json!({"failures": f})), "intact blobs are reported"),
+        Err(e) => rep.spec_fail(&format!("c16-file-report-error-{backend}"), ctx(json!({})), &e),
+    }
+    rep.case(&format!("{backend}:files:clean:{}", files.len()), true);
+    // one change at a time
+    let list: Vec<sos_core::ExternalFile> = files.iter().cloned().collect();
+    let kinds = ["bitflip", "truncate", "extend", "empty", "remove", "bitflip-last-byte", "truncate-one"];
+    let rounds = if thorough { 12 } else { 4 };
+    for _ in 0..rounds {
+        let victim = *rng.pick(&list);
+        let kind = *rng.pick(&kinds);
+        let path = paths.into_file_path(&victim);
+        let orig = std::fs::read(&path)?;
+        let mut changed = orig.clone();
+        let mut removed = false;
+        match kind {
+            "bitflip" => { let i = rng.below(changed.len() as u64) as usize; changed[i] ^= 1 << rng.below(8); }
+            "bitflip-last-byte" => { let i = changed.len() - 1; changed[i] ^= 0x80; }
+            "truncate" => { let k = rng.below(changed.len() as u64) as usize; changed.truncate(k.max(1)); if changed.len() == orig.len() { changed.pop(); } }
+            "truncate-one" => { changed.pop(); }
+            "extend" => changed.push(0),
+            "empty" => changed.clear(),
+            _ => removed = true,
+        }
+        if removed { std::fs::remove_file(&path)?; } else { std::fs::write(&path, &changed)?; }
+        let got: Result<Vec<(String, String)>, String> = run(files.clone()).await;
+        std::fs::write(&path, &orig)?;
+        rep.case(&format!("{backend}:files:{kind}:{}", orig.len() / 4096), true);
+        rep.count(&format!("file-tamper:{kind}"));
+        match got {
+            Ok(f) => {
+                let names: Vec<&String> = f.iter().map(|x| &x.0).collect();
+                if !names.contains(&&victim.to_string()) { rep.spec_fail(&format!("c16-tampered-blob-not-reported:{kind}:{backend}"), ctx(json!({"file": victim.to_string(), "size": orig.len(), "failures": f})), "a changed / removed blob is not reported"); }
+                if f.iter().any(|x| x.0 != victim.to_string()) { rep.spec_fail(&format!("c16-untouched-blob-reported:{kind}:{backend}"), ctx(json!({"file": victim.to_string(), "failures": f})), "a blob that was not touched is reported"); }
+                let want = if removed { "missing" } else { "corrupted" };
+                if let Some(x) = f.iter().find(|x| x.0 == victim.to_string()) { if x.1 != want { rep.spec_fail(&format!("c16-blob-reported-as-{}-expected-{want}:{backend}", x.1.split(':').next().unwrap()), ctx(json!({"file": victim.to_string(), "kind": kind})), "wrong failure kind"); } }
+            }
+            Err(e) => rep.spec_fail(&format!("c16-file-report-error-{backend}"), ctx(json!({"kind": kind})), &e),
+        }
+    }
+    Ok(())
+}
+
 pub fn run(cli: &Cli) {
     let property = cli.extra.get("property").cloned().unwrap_or("C16".into());
     let mut rep = Report::new(&property, "integrity", cli.seed, &cli.tier);
@@ -208,9 +299,15 @@ pub fn run(cli: &Cli) {
             }
         }
     }
+    for backend in ["fs", "db"] {
+        for k in 0..(if thorough { 8 } else { 2 }) {
+            let case_seed = cli.seed.wrapping_mul(1_000_003).wrapping_add(500 + k);
+            if let Err(e) = rt.block_on(file_case(backend, case_seed, &mut rep, thorough)) { rep.spec_fail("c16-harness-aborted", json!({"case_seed": case_seed, "backend": backend, "part": "files"}), &e.to_string()); }
+        }
+    }
     rep.diff_streams("corr:integrity", &ops, &imp);
     rep.rule = format!("{n} accounts per backend from generated histories (secrets of several kinds, update, delete, second folder, rename); a clean report, then one single-bit flip at a time in the content or checksum region of \\
         vault rows and event records (file system: byte offsets from the real row iterator; sqlite: one cell of folder_secrets / folder_events), and removal of the vault and of the log (file system); \\
-        file-system cases are also replayed on the Lean report function (rows read back from the files); distinct = distinct (account, position)");
+        file-system cases are also replayed on the Lean report function (rows read back from the files); plus accounts with 2-4 file secrets: file_integrity over the files named by the file log, clean and with one blob bit-flipped / truncated / extended / emptied / removed (exactly that file must be reported); distinct = distinct (account, position)");
     rep.write(&cli.out);
 }
